@@ -23,7 +23,7 @@ ASSUMPTIONS = ['raw_timestamps=True and False are related by TimestampArray.as_d
 REQUIRED = ['path:lazy[:]', 'path:lazy.data_chunks', 'path:file.data_chunks', 'path:iter', 'path:index', 'path:memmap-eager',
             'path:memmap-lazy', 'path:by-path', 'path:fileobj', 'path:raw_ts', 'path:unscaled', 'path:eager.read_data', 'path:eager.data',
             'family:model', 'family:scaled', 'family:daqmx', 'untyped_channels']
-N = {'quick': 2400, 'thorough': 20000}
+N = {'quick': 2400, 'thorough': 120000}
 
 
 def gen_cases(tier, seed):
